@@ -115,6 +115,9 @@ def run(ctx, rep) -> None:
     from .c04 import global_selector_is_ownership_independent, selector_construction
 
     rep.attempt("selector_construction", selector_construction, ctx, rep, "C08.3")
+    from .common import working_lists_hold_local_tensors
+
+    rep.attempt("working_lists_hold_local_tensors", working_lists_hold_local_tensors, ctx, rep, "C08.3")
     rep.attempt("global_selector_is_ownership_independent", global_selector_is_ownership_independent, ctx, rep, "C08.3")
     from .c03 import _Proxy
     from .c17 import _dispatch_tables
